@@ -5,6 +5,7 @@ import (
 	"context"
 
 	"github.com/canopy-network/canopy/lib"
+	"github.com/canopy-network/canopy/lib/crypto"
 )
 
 // C07: transaction atomicity inside a block. The real ApplyTransactions runs a block [t1, t2] of two
@@ -17,12 +18,23 @@ import (
 // Signatures are ideal (the signer's address is its key bytes, verification always succeeds): C07 is
 // about rollback, C05 about who may sign.
 
-//zz:stub (*github.com/canopy-network/canopy/lib/crypto.BatchVerifier).Add noop
+//zz:stub (*github.com/canopy-network/canopy/lib/crypto.BatchVerifier).Add harness zzBatchAdd
 //zz:stub (*github.com/canopy-network/canopy/lib/crypto.BatchVerifier).Verify noop
 
 type zzWorldVals struct {
 	bal  [3]uint64
 	pool [2]uint64
+}
+
+// zzBatchAdd: the batch verifier only records what it is asked to verify (ideal signatures: the
+// batch succeeds); C05 A1 checks that exactly (key, sign bytes, signature) of the transaction is queued.
+type zzBatchItem struct{ pk, msg, sig []byte }
+
+var zzBatchQueue []zzBatchItem
+
+func zzBatchAdd(b *crypto.BatchVerifier, pk crypto.PublicKeyI, pkBytes, msg, sig []byte) error {
+	zzBatchQueue = append(zzBatchQueue, zzBatchItem{pkBytes, msg, sig})
+	return nil
 }
 
 func zzWorldValues() (w zzWorldVals) {
